@@ -51,14 +51,19 @@ def _rrange(m):
 
 def gen_direct(rng):
     m = _pomdp(rng)
-    exact = rng.random() < 0.75 and m["g"] != F(1, 4)   # 1/(1-g) = 4/3 is not dyadic
-    hi = 5 if exact else 40
+    boundary = rng.random() < 0.1
+    if boundary:      # discount just below 1 (the 0.0001 guards), mostly with costs
+        m["g"] = rng.choice([1 - F(1, 2 ** 14), 1 - F(1, 2 ** 17)])
+        if rng.random() < 0.7:
+            top = max(max(row) for row in m["R"]); m["R"] = [[x - top - rng.choice([0, 1]) for x in row] for row in m["R"]]
+    exact = rng.random() < 0.75 and m["g"] in (F(1, 2), F(3, 4))   # 1/(1-g) = 4/3 is not dyadic
+    hi = 5 if exact else (6 if boundary else 40)
     hB, hF, hQ = rng.randint(0, hi), rng.randint(0, hi), rng.randint(0, hi)
     hP = rng.randint(0, 3)
     lo, _ = _rrange(m)
     minRew = lo - rng.choice([0, 0, 1, 5])
     bstr, _ = _beliefs(rng, m["S"])
-    repr_ = rng.choice(["dense", "dense", "dense", "sparse"])
+    repr_ = rng.choice(["dense", "dense", "generic", "generic", "sparse"])
     return "direct %s %d %d %d %d %d %s %s %s %s" % (repr_, hB, hF, hQ, hP, rng.choice([1, 3, 8]), Qs([minRew]),
                                                    fmt_pomdp(m), bstr, "exact" if exact else "approx")
 
@@ -113,6 +118,46 @@ def gen_anytime(rng, which):
     return "gapmin %s %d %d %s %s %s" % (Qs([tol]), digits, maxIter, fmt_pomdp(m), Qs(b0), bstr)
 
 
+def _switch(rng):
+    """'hidden switch': bet on the position (reward r if right), or reset (LAST action, no reward) which puts the
+       switch in position 0; observations carry no information.  V*(b) = max(r max_s b(s), g r)/(1-g)."""
+    S = rng.choice([2, 2, 3]); A = S + 1; O = rng.choice([1, 2])
+    g = rng.choice([F(3, 4), F(7, 8)])
+    r = F(rng.choice([1, 2, 4]))
+    P = [[[F(1) if j == s else F(0) for j in range(S)] for s in range(S)] for a in range(S)]
+    P.append([[F(1) if j == 0 else F(0) for j in range(S)] for s in range(S)])
+    R = [[(r if a == s else F(0)) for a in range(S)] + [F(-rng.choice([0, 0, 1]), 4)] for s in range(S)]
+    Ob = [[[F(1, O)] * O for s1 in range(S)] for a in range(A)]
+    b0 = rng.choice([[F(1, S)] * S if S == 2 else [F(1, 2), F(1, 4), F(1, 4)],
+                     [F(1, 4), F(3, 4)] + [F(0)] * (S - 2), [F(5, 8), F(3, 8)] + [F(0)] * (S - 2)])
+    return dict(S=S, A=A, O=O, P=P, R=R, Ob=Ob, g=g), b0
+
+
+def gen_switch(rng, which):
+    m, b0 = _switch(rng)
+    bstr, _ = _beliefs(rng, m["S"], 5)
+    if which == "sarsop":
+        tol = rng.choice([F(1, 64), F(1, 256), F(1, 1024)])
+        return "sarsop %s %s %d %s %s %s" % (Qs([tol]), Qs([rng.choice([F(1, 8), F(1, 64)])]), rng.choice([3, 10, 1000]),
+                                            fmt_pomdp(m), Qs(b0), bstr)
+    return "gapmin %s %d %d %s %s %s" % (Qs([rng.choice([F(1, 16), F(1, 256)])]), rng.choice([3, 4]), rng.choice([3, 1000]),
+                                        fmt_pomdp(m), Qs(b0), bstr)
+
+
+def gen_bpa(rng):
+    if rng.random() < 0.4:
+        m, b = _switch(rng)
+    else:
+        m = _pomdp(rng); b = gen_beliefs(rng, m["S"], 1)[0]
+    bstr, _ = _beliefs(rng, m["S"], 4)
+    return "bpa %d %s %s %s" % (rng.choice([0, 1, 3, 30]), fmt_pomdp(m), Qs(b), bstr)
+
+
+def gen_perseus_d1(rng):
+    m = _pomdp(rng); m["g"] = F(1)
+    return "perseus_d1 %s" % fmt_pomdp(m)
+
+
 def gen_cleanup(rng):
     S = rng.choice([2, 3]); A = rng.choice([1, 2])
     ubQ = [[F(rng.randint(8, 12)) for a in range(A)] for s in range(S)]
@@ -136,11 +181,15 @@ def gen(rng, tier):
     out = []
     for k in range(n):
         r = rng.random()
-        if r < 0.45: out.append(gen_direct(rng))
-        elif r < 0.55: out.append(gen_conv(rng))
-        elif r < 0.62: out.append(gen_fibsparse(rng))
-        elif r < 0.72: out.append(gen_bca(rng))
-        elif r < 0.84: out.append(gen_anytime(rng, "sarsop"))
-        elif r < 0.94: out.append(gen_anytime(rng, "gapmin"))
+        if r < 0.40: out.append(gen_direct(rng))
+        elif r < 0.49: out.append(gen_conv(rng))
+        elif r < 0.55: out.append(gen_fibsparse(rng))
+        elif r < 0.63: out.append(gen_bca(rng))
+        elif r < 0.71: out.append(gen_bpa(rng))
+        elif r < 0.79: out.append(gen_anytime(rng, "sarsop"))
+        elif r < 0.85: out.append(gen_switch(rng, "sarsop"))
+        elif r < 0.92: out.append(gen_anytime(rng, "gapmin"))
+        elif r < 0.945: out.append(gen_switch(rng, "gapmin"))
+        elif r < 0.955: out.append(gen_perseus_d1(rng))
         else: out.append(gen_cleanup(rng))
     return out
